@@ -111,6 +111,15 @@ CHECKS = {
                      "turns: C10_Exact / C10_NotBefore on every recv result, C16_NoLoss and C16_NeverPartial at the end, C16_LaterIntact / C07_Fifo / C11_ContinuationId per frame, "
                      "C08_Wake (not starved of credit) at quiescence.",
                 note="cancellation points are those a script can reach between scheduler turns, not every poll of the future"),
+    "C18": dict(technique="TLC model check of the resource-side transaction pipeline at the implementation's grain (Txn.tla: wire -> session engine -> coordinator task -> session control queue; isolation, atomicity, discharge-once; the wire-order variant as oracle and the deferred variant refuted for late posts as a negative control); TLC-enumerated controller behaviours played against a real listener with a control-link acceptor (TxnGen.tla) and TLC-enumerated application behaviours of the real controller (OwnedTransaction) against a scripted coordinator (TxnCtlGen.tla); traces validated in TLC against the sequential reading (TxnTrace.tla)",
+                design="4/C18",
+                text="MC: posts of a live transaction are never visible, a committed transaction's posts appear as one block in posting order, rolled back / aborted ones never, each id is "
+                     "discharged once, for all interleavings of controller, engine and coordinator steps (2 transactions, 3 messages, 6 frames). Conformance, resource side: depth 3 "
+                     "(thorough 4) over 15 (18) events with 0-2 transactions declared beforehand: C18_Isolation / C18_Atomic / C18_Refused / C18_Order on every recv result, "
+                     "C18_CommitDelivers at the end, C18_DischargeReply and C18_FreshId on every control-link reply, C18_RefusalSignalled for posts under unknown or finished ids, "
+                     "C18_LatePost for the back-to-back schedule. Controller side: depth 4 (6) over declare / post / commit / rollback / drop with accepting and rejecting coordinator: "
+                     "C18_PostCarriesId, C18_DischargeWire (id and fail flag), C18_OutcomeReported.",
+                note="retirements (transactional dispositions of deliveries the resource sent) and transactional acquisition are not exercised; the receiving application is one recv loop per link"),
     "C19": dict(technique="TLC model check of the SASL negotiation machines of both roles against a Dolev-Yao adversary with symbolic SCRAM terms (Sasl.tla: no authentication without the password, authentication needs a password-derived term, a non-OK outcome never authenticates; negative reachability controls); the same adversary's frame sequences enumerated by TLC as scripts (SaslGen.tla), turned into real bytes by an independent RFC 5802 implementation in the harness and played against the real ConnectionAcceptor / Connection::open; traces validated in TLC against the ideal machines (SaslTrace.tla)",
                 design="4/C19",
                 text="MC: for listener PLAIN / SCRAM and client SCRAM, an adversary whose alphabet excludes every term built from the password never drives the ideal machine to 'amqp' "
